@@ -48,15 +48,12 @@ ASSUMPTIONS = [
     "broadcasting: correspondence against NumPy only (differential), no theorem",
 ]
 
-CL_D3 = "D3_coo_ndarray_zero_out_cols"
-CL_D8 = "D8_csr_csr_rows_unsorted"
-CL_D19 = "D19_dot_1d_length_mismatch"
 CL_D20 = "D20_gcxs_zero_extent"
 CL_SCIPY = "scipy_operand_rejected"
 CL_SHORTCUT = "zero_size_shortcut_ignores_return_type"
 CL_CSCND = "D8_csc_ndarray_sparse_rows_unsorted"
 
-PER_CASE_TIMEOUT = 6.0      # vlib allows 4x this per case (see run_impl): 24 s
+PER_CASE_TIMEOUT = 15.0     # vlib allows 4x this per case (see run_impl): 60 s; JIT compilation of a kernel chain under load takes 10-25 s
 
 
 # ====================================================================== implementation side
@@ -592,9 +589,13 @@ def api_cases(tier, rng):
         add(rng.choice(["dot", "matmul", "tensordot"]), rand_spec(rng, (m, n)), ka, rand_spec(rng, (n2, p)), kb, axes=[[1], [0]],
             tag="malformed", follow=False)
     # ---- dtype pairs (values still small integers)
-    for (dta, dtb) in [("int32", "int64"), ("float64", "int64"), ("int64", "float32"), ("int8", "int16"), ("float32", "float32"),
-                       ("uint8", "int64"), ("bool", "int64"), ("complex128", "int64")]:
-        for (ka, kb) in [("coo", "coo"), ("g0", "g0"), ("coo", "nd"), ("nd", "g1")]:
+    dts = [("int32", "int64"), ("float64", "int64"), ("int64", "float32"), ("int8", "int16"), ("float32", "float32"),
+           ("uint8", "int64"), ("bool", "int64"), ("complex128", "int64")]
+    kps = [("coo", "coo"), ("g0", "g0"), ("coo", "nd"), ("nd", "g1")]
+    if quick:       # every dtype pair compiles its own kernels (seconds each): three pairs, rotating kinds
+        dts = rng.sample(dts, 3)
+    for t, (dta, dtb) in enumerate(dts):
+        for (ka, kb) in (kps if not quick else [kps[t % 4], kps[(t + 1) % 4]]):
             m, n, p = 2, 3, 2
             A, B = rand_matrix(rng, m, n, 0.7), rand_matrix(rng, n, p, 0.7)
             if dta in ("uint8", "bool"):
@@ -702,9 +703,7 @@ def classify_api(case, code, r):
     sb = case["b"]["shape"] if case["b"] is not None else []
     if code == 10:
         # _dot_coo_ndarray(_sparse): COO . ndarray whose output has no columns but whose left operand stores entries
-        if ka == "coo" and kb == "nd" and nnz_of(case["a"]) > 0:
-            return "value", CL_D3
-        return "value", None
+        return "value", None       # (D3 was repaired: any hang is a new violation)
     if code == 11:
         return "value", CL_D20
     if code == 12:
@@ -713,9 +712,7 @@ def classify_api(case, code, r):
                 return "value", CL_SCIPY
         return "value", None
     if code == 13:
-        if len(sa) == 1 and len(sb) == 1 and sa != sb and op in ("dot", "matmul", "at"):
-            return "value", CL_D19
-        return "value", None
+        return "value", None       # (D19, dot of 1-d operands of different lengths, was repaired: a recurrence is new)
     if code == 14:
         if op == "tensordot" and case.get("rt"):
             return "value", CL_SHORTCUT
@@ -725,7 +722,7 @@ def classify_api(case, code, r):
         if g.get("k") == "gcxs":
             if kb == "nd" or ka == "nd":
                 return "canonical_form", CL_CSCND
-            return "canonical_form", CL_D8
+            return "canonical_form", None      # (D8, csr @ csr, was repaired: a recurrence is new)
         return "canonical_form", None
     if code == 16:
         return "canonical_form", None
@@ -763,6 +760,7 @@ def campaign(build, tier, seed, report, budget=1):
     # -------- kernel level
     kc = kernel_cases(tier, rng)
     kres = vlib.run_impl("props.c04", "impl_kernel", kc, workers=6, per_case_timeout=PER_CASE_TIMEOUT)
+    cov["wall_kernel_impl_s"] = round(time.time() - t0, 1)
     klits = [kernel_lit(c, r) for c, r in zip(kc, kres, strict=True)]
     for c, r in zip(kc, kres, strict=True):
         tag("kernel/" + c["k"])
@@ -770,7 +768,7 @@ def campaign(build, tier, seed, report, budget=1):
             tag("kernel/hang")
         if isinstance(r.get("r"), dict) and r["r"].get("k") == "exc":
             tag("kernel/exc:" + r["r"]["cls"])
-    kbad = build.judge("c04_kernel", "From Verif Require Import NpDot Dot SArr C04Judge.", "kinput * sarr", "judge_kernel", klits,
+    kbad = build.judge("c04_kernel", "From Verif Require Import Py Shape COO GCXS NpDot Dot SArr C04Judge.", "kinput * sarr", "judge_kernel", klits,
                        chunk=120, timeout=600)
     for i, code in kbad:
         c, r = kc[i], kres[i]
@@ -786,7 +784,9 @@ def campaign(build, tier, seed, report, budget=1):
 
     # -------- API level
     ac = api_cases(tier, rng)
+    t1 = time.time()
     ares = vlib.run_impl("props.c04", "impl_api", ac, workers=6, per_case_timeout=PER_CASE_TIMEOUT)
+    cov["wall_api_impl_s"] = round(time.time() - t1, 1)
     # a hang is re-run once on its own (a slow first JIT compilation must not be mistaken for one)
     hang_idx = [i for i, r in enumerate(ares) if r.get("hang")]
     if hang_idx:
@@ -819,8 +819,10 @@ def campaign(build, tier, seed, report, budget=1):
         if isinstance(impl, dict) and isinstance(npres, dict) and impl.get("dtype") and npres.get("dtype") \
                 and npres.get("k") != "exc" and impl.get("k") != "exc" and impl["dtype"] != npres["dtype"]:
             dtype_viol.append((i, impl["dtype"], npres["dtype"]))
-    abad = build.judge("c04_api", "From Verif Require Import NpDot Dot SArr C04Judge.", "acase", "judge_api", alits,
+    t2 = time.time()
+    abad = build.judge("c04_api", "From Verif Require Import Py Shape COO GCXS NpDot Dot SArr C04Judge.", "acase", "judge_api", alits,
                        chunk=150, timeout=600)
+    cov["wall_api_judge_s"] = round(time.time() - t2, 1)
     bad_main = {}
     for j, code in abad:
         i, f = owners[j]
@@ -841,7 +843,7 @@ def campaign(build, tier, seed, report, budget=1):
         # a column slice of the product differs from NumPy's: wrong VALUES downstream of unsorted rows
         clause = None
         if bad_main.get(i) == 15 or not _rows_sorted(r.get("r", {})):
-            clause = CL_D8 if "nd" not in c["kin"] else CL_CSCND
+            clause = None if "nd" not in c["kin"] else CL_CSCND
         tag("verdict/slice_of_product_wrong" + ("/" + clause if clause else ""))
         viol.append({"property": "C04", "op": c["op"] + "_then_slice", "kind": "value", "clause": clause, "code": code,
                      "what": f"(a {c['op']} b)[:, {f['lo']}:{f['hi']}] differs from NumPy's", "kinds": list(c["kin"]),
